@@ -18,7 +18,7 @@ func TestProp(t *testing.T) {
 	logrus.SetOutput(ioutil.Discard)
 	env := vh.GetEnv()
 	rep := vh.NewReport("C17", "exploration")
-	rep.Rule("question sequences: (okta) 10-30 steps of ask(user, permuted group subset, sometimes with a duplicate) / directory change / inner error (generic, wrapped, and the real providers.Err* / circuit-open / group-not-found values) / 'user who asked about A asks about a new related set B while the directory fails' / sleep past a 30-50 ms TTL against the real GroupCache+LocalCache, 12% with three concurrent askers; (okta-probe) pairs of different questions whose joined cache keys could coincide; (google, cognito) 5-9 steps of ask / concurrent ask pair / directory change / direct refresh / failing direct check / held fill against the real provider + real PopulateMembers + real FillCache, groups pre-filled, failing or held. FillCache histories: (fc-seq) 10-24 scripted Update/Get steps with fill outcomes ok/error/not-found plus one refresh loop; (fc-conc) 1-3 groups, held fills, 2-4 free-running workers, 35% with refresh loops (5-20 ms) and Stop. distinct = per question (user class, set size, relation to earlier questions, hit/miss/error) resp. (set size, definitely cached, definitely uncached, source) sequences; for FillCache the per-group operation shape (admitted/rejected begins, store/keep/delete ends, gets by version rank, overlap marks). Directory histories (google-dir, cognito-dir): the provider built as options.go builds it (constructor, production FillCache over the provider's own PopulateMembers, single-flight wrapper; google: the real GoogleAdminService over HTTP to a fake Admin SDK directory API reached through a rewriting http.DefaultTransport; cognito: the AdminService field replaced by the directory), 2-3 groups whose member lists are exactly the directory state - ids unique per state, lists empty, paginated (page size 1-2), with a nested group, group deleted (404) and re-created - 7-13 phases of change / refresh (direct Update as a tick does it, or with a 5-20 ms refresh TTL two ticks of the provider's own loops) with 30-40% failing listings (500/503/403/429/400 on the first page, a later page or the nested group) / Get of every group + 1-2 questions (former members, current members, persistent users, strangers) / change without refresh / failing direct request; distinct = the stamp-ordered sequence of fill outcome classes, Get classes and question classes")
+	rep.Rule("question sequences: (okta) 10-30 steps of ask(user, permuted group subset, sometimes with a duplicate) / directory change / inner error (generic, wrapped, and the real providers.Err* / circuit-open / group-not-found values) / 'user who asked about A asks about a new related set B while the directory fails' / sleep past a 30-50 ms TTL against the real GroupCache+LocalCache, 12% with three concurrent askers; (okta-probe) pairs of different questions whose joined cache keys could coincide: ',' and '\\' inside group names, and the user/groups boundary resp. the boundaries between names glued with ':' ',' '|' '/' space, nothing, NUL or printed with %v/%q; (fc-probe) FillCache filled under confusable group names (separators, case, blanks, empty name); (google, cognito) 5-9 steps of ask / concurrent ask pair / directory change / direct refresh / failing direct check / held fill against the real provider + real PopulateMembers + real FillCache, groups pre-filled, failing or held. FillCache histories: (fc-seq) 10-24 scripted Update/Get steps with fill outcomes ok/error/not-found plus one refresh loop; (fc-conc) 1-3 groups, held fills, 2-4 free-running workers, 35% with refresh loops (5-20 ms) and Stop. distinct = per question (user class, set size, relation to earlier questions, hit/miss/error) resp. (set size, definitely cached, definitely uncached, source) sequences; for FillCache the per-group operation shape (admitted/rejected begins, store/keep/delete ends, gets by version rank, overlap marks). Directory histories (google-dir, cognito-dir): the provider built as options.go builds it (constructor, production FillCache over the provider's own PopulateMembers, single-flight wrapper; google: the real GoogleAdminService over HTTP to a fake Admin SDK directory API reached through a rewriting http.DefaultTransport; cognito: the AdminService field replaced by the directory), 2-3 groups whose member lists are exactly the directory state - ids unique per state, lists empty, paginated (page size 1-2), with a nested group, group deleted (404) and re-created - 7-13 phases of change / refresh (direct Update as a tick does it, or with a 5-20 ms refresh TTL two ticks of the provider's own loops) with 30-40% failing listings (500/503/403/429/400 on the first page, a later page or the nested group) / Get of every group + 1-2 questions (former members, current members, persistent users, strangers) / change without refresh / failing direct request; distinct = the stamp-ordered sequence of fill outcome classes, Get classes and question classes")
 	rep.Assume("the fake directory answers exactly as logged; a member list carries a marker member naming group and version so that a cached list identifies the directory answer it copies")
 	rep.Assume("okta stream: group names are strings GetProfile can produce (strings.Split of the form value on ','): no commas, the empty name never alone; comma-containing names are probed separately (okta-probe) and carry their input class in the signature")
 	rep.Assume("after Stop a refresh loop may still take ticks that were ready together with the stop signal (Go select is random among ready cases): the number of periodic fills after Stop is geometric when iterations are slower than the TTL; up to 20 per group are tolerated, a loop that does not stop passes any bound")
@@ -36,7 +36,8 @@ func TestProp(t *testing.T) {
 	cpu := runtime.GOMAXPROCS(0)
 	streams := []streamDef{
 		{"okta", env.Pick(1100, 34000), cpu * 2, func(i int) { runOkta(rep, env, i) }},
-		{"okta-probe", env.Pick(100, 1000), cpu, func(i int) { runOktaProbe(rep, env, i) }},
+		{"okta-probe", env.Pick(400, 2000), cpu, func(i int) { runOktaProbe(rep, env, i) }},
+		{"fc-probe", env.Pick(140, 1400), 32, func(i int) { runFillProbe(rep, env, i) }},
 		{"fc-seq", env.Pick(300, 6000), 96, func(i int) { runFillSeq(rep, env, i) }},
 		{"fc-conc", env.Pick(300, 8000), 96, func(i int) { runFillConc(rep, env, i) }},
 		{"google", env.Pick(450, 12500), 128, func(i int) { runProvider(rep, env, "google", i) }},
@@ -87,6 +88,8 @@ func TestProp(t *testing.T) {
 		rep.Floor("fills_error", 50)
 		rep.Floor("fills_notfound", 20)
 		rep.Floor("probe_pairs_kept_apart", 10)
+		rep.Floor("probe_boundary_pairs_kept_apart", 150)
+		rep.Floor("fc_probe_cases", 100)
 		for _, kind := range []string{"google", "cognito"} {
 			pre := kind + "_dir_"
 			rep.Floor(pre+"cache_gets_judged", 1000)
